@@ -13,7 +13,7 @@ type c10Case struct {
 	Ctx   int   `json:"ctx"`
 }
 
-var c10Lexemes = []string{"a", "<", ">", "&", `"`, "'", ";", "#", "&amp;", "&lt;", "&#34;", "&#39;", "&quot;", "é", "\n", `\`, " ", ","}
+var c10Lexemes = []string{"a", "<", ">", "&", `"`, "'", ";", "#", "&amp;", "&lt;", "&#34;", "&#39;", "&quot;", "é", "\n", `\`, " ", ",", "\x00"}
 
 var c10Contexts = []string{"print", "concat", "var", "array", "ternary", "raw", "raw-concat", "raw-var", "concat-var", "insert-arg", "component-arg", "component-arg-raw", "insert-block", "slot-body", "raw-then-print", "raw-twice", "print-raw-print", "array-last", "array-only", "array-nested-last", "loop-print", "loop-concat", "loop-raw", "loop-var-concat", "object-key", "object-key-lookup", "object-key-nested"}
 
